@@ -38,6 +38,10 @@ CLAIMED['C14'] = dict(design='5 (C14), 2', note='trusted: MIRSE MIR semantics + 
     'obtained and called through the real preprocessing(WhitespaceCorruption(..)) path; rand = every stream, determinism = all draws come from '
     'a generator seeded with info.seed; label consistency checked with the real operations()/repair(); known finding KF-C14-1 (cluster '
     'boundaries change in grapheme mode) excluded only while its witness reproduces; the tokenizer-based task closure is outside')
+CLAIMED['C13'] = dict(design='5 (C13), 2', note='trusted: MIRSE MIR semantics + std models; rayon = sequential map, NFKC = identity on ASCII, HashSet '
+    'order fixed (only counts are used); IEEE-754 queries on the F-beta formula are decided by cvc5 (beta symbolic: every f32 value in (0,8] '
+    'in the quick tier, every f64 in thorough); private functions are replayed natively through the `verif` hook feature; known finding '
+    'KF-C13-1 (deleted whole words counted as false positives) excluded only while its witness reproduces; two defects repaired by fix commits')
 NOT_YET = 'check not built yet in this session (work in progress, see DESIGN.md section 6 for the order)'
 NA = {}
 
@@ -71,7 +75,7 @@ m = {
     'setup_cmd': './setup.sh',
     'hooks': {'guard': 'cargo feature `verif` of text-utils', 'enable': 'cargo build --features text-utils/verif (replay binary); MIR dump uses the unhooked code paths',
               'baseline_off_cmd': 'cd /repo && cargo test --workspace --no-fail-fast --offline',
-              'source_commits': [], 'add_only': True},
+              'source_commits': ['0908cb9'], 'add_only': True},
     'engines': [
         {'name': 'MIRSE', 'path': 'mirse/', 'serves_properties': sorted(k for k in CLAIMED if CLAIMED[k].get('engine', 'MIRSE') == 'MIRSE'),
          'kind_free_text': 'path-wise symbolic executor for rustc MIR (-Zunpretty=mir dump regenerated from /repo on every run), python + z3, '
